@@ -7,14 +7,16 @@ use mos_core::parser::parse_or_err;
 use mos_core::parser::source::FileSystemParsingSource;
 use mos_core::LINE_ENDING;
 use std::io::Write;
+use std::path::Path;
 
 /// Formats input file(s)
 #[derive(argh::FromArgs, PartialEq, Eq, Debug)]
 #[argh(subcommand, name = "format")]
 pub struct FormatArgs {}
 
-pub fn format_command(cfg: &Config) -> MosResult<()> {
-    let input_name = cfg.build.entry.clone();
+pub fn format_command(root: &Path, cfg: &Config) -> MosResult<()> {
+    // (the entry is relative to the project, not to wherever the command happens to be run from)
+    let input_name = cfg.build.input_path(root);
     let tree = parse_or_err(input_name.as_ref(), FileSystemParsingSource::new().into())?;
 
     for file in tree.files.keys() {
